@@ -84,15 +84,21 @@ def run(ctx: Ctx) -> None:
                 ctx.extra["not_importable_examples"].append({"error": py["error"], "units": src})
             continue
         ctx.count("projects")
+        from .c07 import Clock
         try:
-            system = build_system(units)
+            with Clock() as clk:
+                system = build_system(units)
         except Exception as e:
             ctx.fail("analysis-crash:" + type(e).__name__, {"units": src}, f"{type(e).__name__}: {e}")
             continue
         toks, ids, objs = nd.state_tokens(system)
         queries, answers = [], []
+        by_doc = {o.docstring: o for o in system.allobjects.values() if isinstance(o.docstring, str) and o.docstring.startswith("ID:")}
         for scope, names in py["scopes"].items():
             so = system.allobjects.get(scope)
+            if so is None:
+                # a class that a re-export moved elsewhere: find it by its identity, not by its definition-site name
+                so = by_doc.get("ID:" + scope.rsplit(".", 1)[-1])
             if so is None:
                 ctx.fail("scope-missing", {"units": src}, f"pydoctor has no object {scope}")
                 continue
@@ -121,10 +127,15 @@ def run(ctx: Ctx) -> None:
                     ctx.count("unresolved:" + form)
                     # completeness clauses of the property
                     if depth == 0 and form in ("from_definer", "from_definer_relative") and pyid[0] == "def":
-                        ctx.fail("incomplete:direct-import", {"units": src, "scope": scope, "name": dotted},
+                        # the object may have been moved away from its defining module by a re-export (known finding)
+                        target = next((o for o in system.allobjects.values() if o.docstring == pyid[1]), None)
+                        moved = target is not None and id(target) in clk.moves
+                        ctx.fail("incomplete:direct-import" + (":moved-object" if moved else ""), {"units": src, "scope": scope, "name": dotted},
                                  f"in {scope}, {dotted!r} (imported from its defining module) does not resolve")
                     if depth == 1 and form == "import_as" and pyid[0] in ("def", "value") and defined_in_aliased(g, scope, dotted, system):
-                        ctx.fail("incomplete:module-alias", {"units": src, "scope": scope, "name": dotted},
+                        target = next((o for o in system.allobjects.values() if pyid[0] == "def" and o.docstring == pyid[1]), None)
+                        moved = target is not None and id(target) in clk.moves
+                        ctx.fail("incomplete:module-alias" + (":moved-object" if moved else ""), {"units": src, "scope": scope, "name": dotted},
                                  f"in {scope}, {dotted!r} (through a module alias) does not resolve")
                 if len(queries) < 400:
                     queries.append("E|%d|%s" % (ids[id(so)], enc(dotted)))
